@@ -48,6 +48,8 @@ KINDS = ["Line", "Type.Size", "Value.Int()", "Text"]
 
 def value_of(site, kind, var):
     """The underlying value of `kind` for capture var at a site, from the go/types facts; None = unknown."""
+    if var == "$$":
+        var = "m"
     if kind == 0:
         return site["line_" + var]
     if kind == 1:
@@ -350,7 +352,7 @@ def run(c):
                "From RG.Filters Require Import FilterIR FilterAlgebra.",
                "From RGW Require Import Gen_FilterTables.",
                "Import ListNotations. Local Open Scope string_scope.",
-               "Record sfacts := { lx : Z; ly : Z; sx : option Z; sy : option Z; ix : option Z; iy : option Z; tx : string; ty : string;",
+               "Record sfacts := { lx : Z; ly : Z; lm : Z; sx : option Z; sy : option Z; ix : option Z; iy : option Z; tx : string; ty : string; tm : string;",
                "  rest : list (option Z * option Z) }.",
                "Definition atoms : list dexpr := [%s]." % "; ".join(a["coq"] for a in sorted(atoms, key=lambda a: int(a["role"]))),
                "Definition atom_keys : list (option lfilter) := map (compile gen_tables) atoms.",
@@ -361,13 +363,15 @@ def run(c):
                "Definition one (o : option Z) : obs Z := match o with Some v => Known v | None => Unknown end.",
                "Definition env (s : sfacts) (av : list (option bool)) : menv := {|",
                "  m_int := fun k c x => match k with",
-               "    | KLine => if String.eqb x \"x\" then Ok (Known (lx s)) else if String.eqb x \"y\" then Ok (Known (ly s)) else Panic PFuel",
+               "    | KLine => if String.eqb x \"x\" then Ok (Known (lx s)) else if String.eqb x \"y\" then Ok (Known (ly s))",
+               "               else if String.eqb x \"$$\" then Ok (Known (lm s)) else Panic PFuel",
                "    | KSize => if String.eqb x \"x\" then Ok (one (sx s)) else if String.eqb x \"y\" then Ok (one (sy s))",
                "               else if c then Ok (Each (map fst (rest s))) else Panic PFuel",
                "    | KValueInt => if String.eqb x \"x\" then Ok (one (ix s)) else if String.eqb x \"y\" then Ok (one (iy s))",
                "               else if c then Ok (Each (map snd (rest s))) else Panic PFuel",
                "    | KText => Panic PFuel end;",
-               "  m_str := fun c x => if String.eqb x \"x\" then Ok (Known (tx s)) else if String.eqb x \"y\" then Ok (Known (ty s)) else Panic PFuel;",
+               "  m_str := fun c x => if String.eqb x \"x\" then Ok (Known (tx s)) else if String.eqb x \"y\" then Ok (Known (ty s))",
+               "               else if String.eqb x \"$$\" then Ok (Known (tm s)) else Panic PFuel;",
                "  m_atom := fun op v args => match find_idx (key_is op v args) atom_keys 0 with",
                "    | Some n => match nth n av None with Some b => Ok b | None => Panic PExplicit end",
                "    | None => Panic PFuel end |}.",
@@ -394,9 +398,9 @@ def run(c):
             s = sites[(i, j)]
             iv = lambda v: None if v["int"] is None else int(v["int"])
             rest = "[" + "; ".join("(%s, %s)" % (copt(v["size"]), copt(iv(v))) for v in s["rest"]) + "]"
-            return "{| lx := %s; ly := %s; sx := %s; sy := %s; ix := %s; iy := %s; tx := %s; ty := %s; rest := %s |}" % (
-                cz(s["line_x"]), cz(s["line_y"]), copt(s["x"]["size"]), copt(s["y"]["size"]), copt(iv(s["x"])), copt(iv(s["y"])),
-                cstr(s["text_x"]), cstr(s["text_y"]), rest)
+            return "{| lx := %s; ly := %s; lm := %s; sx := %s; sy := %s; ix := %s; iy := %s; tx := %s; ty := %s; tm := %s; rest := %s |}" % (
+                cz(s["line_x"]), cz(s["line_y"]), cz(s["line_m"]), copt(s["x"]["size"]), copt(s["y"]["size"]), copt(iv(s["x"])), copt(iv(s["y"])),
+                cstr(s["text_x"]), cstr(s["text_y"]), cstr(s["text_m"]), rest)
 
         def avrow(i):
             return "[" + "; ".join("None" if atomv[a][i] is None else "Some " + coq_bool(atomv[a][i]) for a in sorted(atomv)) + "]"
